@@ -64,7 +64,7 @@ var c18Tpls = map[string]string{
 	"sv.js":   "var a = \"{{ sv }}\", b = \"{{ sv|markjs }}\";{{ x }}",
 	// a template that cannot be found (on the filesystem; the harness loader takes the name for an inline source)
 	"q.html": "A{% include 'nosuch-' ~ l|length ~ '.html' %}B{{ x }}",
-	"f.js":    "{% if x matches pat %}g('{{ y }}'){% endif %}{% for i in l %}{{ i }};{% endfor %}{{ x starts with pat ? 1 : 0 }}",
+	"f.js":   "{% if x matches pat %}g('{{ y }}'){% endif %}{% for i in l %}{{ i }};{% endfor %}{{ x starts with pat ? 1 : 0 }}",
 }
 
 var c18Words = strings.Repeat("lorem ipsum dolor sit amet consectetur adipiscing elit sed do eiusmod tempor ", 9)
@@ -175,9 +175,9 @@ func c18Env(kind int, s *core.Sched) *stick.Env {
 			os.WriteFile(filepath.Join(dir, n), []byte(src), 0o644)
 		}
 		env = twig.New(stick.NewFilesystemLoader(dir))
-	env.Filters["markjs"] = func(ctx stick.Context, val stick.Value, args ...stick.Value) stick.Value {
-		return stick.NewSafeValue(val, "js") // a user filter that derives a js-safe value; it does not touch its input
-	}
+		env.Filters["markjs"] = func(ctx stick.Context, val stick.Value, args ...stick.Value) stick.Value {
+			return stick.NewSafeValue(val, "js") // a user filter that derives a js-safe value; it does not touch its input
+		}
 		env.Filters["up"] = func(ctx stick.Context, val stick.Value, args ...stick.Value) stick.Value {
 			return strings.ToUpper(stick.CoerceString(val))
 		}
